@@ -9,13 +9,13 @@ import puan.ndarray as pnd
 
 TARGET = "puan.modules.configurator"
 CONTRACTS = {
-    "Any.__init__": {"props": ["C14", "C16", "C18"],
+    "Any.__init__": {"types": {"default": ["NoneType", "list"]}, "props": ["C14", "C16", "C18"],
                      "why": "default given and mixed: Any(default item, inner=Any(complement)) with inner tagged prio -2 (= default -1, minus 1)"},
-    "Any.to_json": {"props": ["C16"], "why": "restructured Any is written flat (default item + inner's children) with its default list"},
-    "Any.from_json": {"props": ["C16"], "why": "default list read back into default="},
-    "Xor.__init__": {"props": ["C14", "C16", "C18"], "why": "the at-least-one half of the Xor becomes a defaulted Any"},
-    "Xor.to_json": {"props": ["C16"], "why": "children taken from the at-most-one half; default list written"},
-    "Xor.from_json": {"props": ["C16"], "why": "default list read back into default="},
+    "Any.to_json": {"domain": ["self.bounds.as_tuple() == (0, 1)", "self.variable.bounds.as_tuple() == (0, 1)", "self.bounds.constant is None", "self.variable.bounds.constant is None"], "props": ["C16"], "why": "restructured Any is written flat (default item + inner's children) with its default list"},
+    "Any.from_json": {"domain": ["'bounds' not in data", "data.get('bounds') is None", "data.get('bounds', None) is None"], "types": {"data": ["dict"]}, "props": ["C16"], "why": "default list read back into default="},
+    "Xor.__init__": {"types": {"default": ["NoneType", "list"]}, "props": ["C14", "C16", "C18"], "why": "the at-least-one half of the Xor becomes a defaulted Any"},
+    "Xor.to_json": {"domain": ["self.bounds.as_tuple() == (0, 1)", "self.variable.bounds.as_tuple() == (0, 1)", "self.bounds.constant is None", "self.variable.bounds.constant is None"], "props": ["C16"], "why": "children taken from the at-most-one half; default list written"},
+    "Xor.from_json": {"domain": ["'bounds' not in data", "data.get('bounds') is None", "data.get('bounds', None) is None"], "types": {"data": ["dict"]}, "props": ["C16"], "why": "default list read back into default="},
     "StingyConfigurator.__init__": {"props": ["C14", "C16", "C18"], "why": "a configurator is All(*rules) with the given id"},
     "StingyConfigurator.ge_polyhedron": {"props": ["C09", "C14", "C15"],
                                          "why": "asserted polyhedron (active=True), default prio vector over its A-columns, same variables/index; not memoised"},
@@ -27,8 +27,8 @@ CONTRACTS = {
     "StingyConfigurator.select": {"props": ["C14", "C15"], "why": "delegates to the polyhedron; only_leafs keeps ids of leafs()"},
     "StingyConfigurator.add": {"props": ["C18"],
                                "why": "raise if the id names an existing child, else StingyConfigurator(*(children + [p]), id=self.id)"},
-    "StingyConfigurator.from_json": {"props": ["C16"], "why": "children through plog.from_json with the configurator class list; id kept"},
-    "StingyConfigurator.to_json": {"props": ["C16"], "why": "same format as All"},
+    "StingyConfigurator.from_json": {"domain": ["'bounds' not in data", "data.get('bounds') is None", "data.get('bounds', None) is None"], "types": {"data": ["dict"]}, "props": ["C16"], "why": "children through plog.from_json with the configurator class list; id kept"},
+    "StingyConfigurator.to_json": {"domain": ["self.bounds.as_tuple() == (0, 1)", "self.variable.bounds.as_tuple() == (0, 1)", "self.bounds.constant is None", "self.variable.bounds.constant is None"], "props": ["C16"], "why": "same format as All"},
 }
 
 
